@@ -187,6 +187,10 @@ func (d *DirectTransmission) Start() error {
 		Timeout:   d.batchSendTimeout,
 	}
 
+	// The stale-batch ticker runs at a quarter of the batch timeout; a (valid) timeout below 4ns
+	// would make that interval zero, which NewTicker refuses with a panic.
+	d.batchTimeout = max(d.batchTimeout, 4*time.Nanosecond)
+
 	d.registerMetrics() // Ensure metrics are registered
 	// Create a pool for concurrent batch sending
 	d.dispatchPool = pool.New().WithMaxGoroutines(maxConcurrentBatches)
